@@ -43,10 +43,12 @@ Definition is_nil {A} (l : list A) : bool := match l with [] => true | _ => fals
 Definition tail_ok (t : str) : option (option str) :=
   let with_rev :=
     match t with
-    | 45%N :: t' =>
-        let (r, rest) := span is_rev_char t' in
-        if negb (is_nil r) && at_end rest then Some r else None
-    | _ => None
+    | c :: t' =>
+        if (c =? 45)%N then                                 (* '-' *)
+          let (r, rest) := span is_rev_char t' in
+          if negb (is_nil r) && at_end rest then Some r else None
+        else None
+    | [] => None
     end in
   match with_rev with
   | Some r => Some (Some r)
@@ -78,11 +80,13 @@ Definition match_version (s : str) : option (option str * str * option str) :=
   let without := match match_up s with Some (u, r) => Some (None, u, r) | None => None end in
   let (d, rest) := span is_epoch_char s in
   match d, rest with
-  | _ :: _, 58%N :: rest' =>
-      match match_up rest' with
-      | Some (u, r) => Some (Some d, u, r)
-      | None => without
-      end
+  | _ :: _, c :: rest' =>
+      if (c =? 58)%N then                                   (* ':' *)
+        match match_up rest' with
+        | Some (u, r) => Some (Some d, u, r)
+        | None => without
+        end
+      else without
   | _, _ => without
   end.
 
